@@ -160,6 +160,59 @@ Classes of behaviour added in round 9:
             True)) two times out of three, over any composition (Ppar /
             Pdur / Pchain over mono lines): C14/timeline-object-reuse/same-
             player-restarted-after-stop/<node-released-twice | ...>.
+Classes of behaviour added in round 10:
+
+  minimal pitch key sets (input class)   "pitch ... keys resolve through their
+            documented chains (degree, scale, transpositions and octave to
+            midinote to freq with harmonic and detune)" for an event that
+            gives ONE input key of the chain and nothing else of it - each of
+            degree, mtranspose, gtranspose, root, octave, scale, ctranspose,
+            harmonic, detune, note, midinote, freq alone, and every pair /
+            triple (c14_gen.minimal_pitch_keys, values that are not the
+            key's neutral value) - in the chain monitor (a quarter of the
+            events, look-ups), the play monitor (a fifth of the events, on
+            instruments with a freq control: the detuned freq of the /s_new)
+            and the timeline monitor (special case pitch-alone: Pbind / Pmono
+            lines whose only pitch columns are 1-3 of these keys, `scale`
+            columns of scale objects included, alone / in a Ppar / right or
+            left operand of a Pchain).  Scales and tunings that do NOT START
+            AT 0 (c14_gen.shifted_scale_spec: degrees that start above key 0,
+            tunings whose first value is not 0 semitones, both, octave ratio
+            2 or not) in every workload that draws a scale (chain, scale,
+            play, histories): with them the default degree is not the default
+            note, so a scale given alone moves the pitch.  A value that is
+            what the model gives WITHOUT one of the (at most three) input
+            keys: C14/pitch-input-key-ignored/<key>/given-<alone | with-other-
+            pitch-keys>.
+  a Pchain that ends by its LEFT operand, inside a sequence (special case
+            chain-in-sequence, found by the derived-object histories: there a
+            left operand may be shorter than the right one)   Pseq([Pchain(
+            short, long), next]) / Pn(Pchain(short, long), n): the pattern
+            that follows is a fresh embedding that starts from the player's
+            prototype event - this library hands it the event the chain had
+            begun (C14/timeline/pchain-ended-by-a-left-operand-hands-its-
+            unfinished-event-to-the-next-pattern-of-a-sequence, genuine:
+            proposed_fixes/C14-pchain-returns-unfinished-event.md).
+  derived pattern objects (histories on two objects, vf/c14_derive.py)   a
+            pattern object `a` is built, another one is derived from it by
+            every route event patterns offer - a.chain(x), type(a)(*a.
+            patterns, x) (Pchain, Ppar), copy.copy / copy.deepcopy (and
+            .chain(x) of the copy), Pbind({**a.dict, **extra}) / Pbind(a.dict
+            | extra), an object made by the constructor from a's parts whose
+            OWN mapping / list is then edited (Pbind(a.dict) + dict.update,
+            type(a)(*a.patterns) + patterns.append), the wrapping constructors Pdur / Pdelta / Pn / Ppar /
+            Pseq / Pchain(x, a) / Pchain(a).chain(x), a stream of `a` that is
+            partly consumed; optionally a second derivation from `a` or from
+            the derived object - x defining keys `a` does not (stretch,
+            ctranspose, legato, detune, amp, controls ...).  Then BOTH are
+            played (derived first / original first / original before and
+            after the derivation / mixed; one after the other or overlapping,
+            also derived while the original plays) and every play is judged
+            against the timeline of what the played object's OWN construction
+            says: C14/derived-pattern-object/<original-altered-by | derived-
+            object-differs>/<route>/<time-line-differs | message-content-
+            differs ...> (the route is found by adding the derivations one at
+            a time, playing the original alone first).
 """
 
 import itertools
@@ -205,6 +258,16 @@ RULE = ("seeded random cases. chain: explicit key sets over the pitch "
         "(7 shapes) under 1-8 control calls without mute, 40% with a failing "
         "element (repair before the restart 70%); stop-replay re-use: same "
         "player restarted 2 of 3. "
+        "round 10: chain - 25% of the events carry a minimal pitch key set "
+        "(1 key 55%, 2 keys 35%, 3 keys: each of the 12 input keys of the "
+        "pitch chain alone and in small combinations, non-neutral values); "
+        "scales of 8 kinds, 3 of them shifted (degree 0 is not key 0 / first "
+        "tuning value not 0); play - 20% of the events of plain programs "
+        "carry such a key set on an instrument with a freq control; timeline "
+        "- 4% pitch-alone lines (Pbind / Pmono, 5 shapes, scale columns), 9% "
+        "derived-object histories (9 kinds of base object, 20 routes of "
+        "derivation, 1-2 derivations, 4 orders of 2-6 plays, sequential or "
+        "overlapping at offsets of 3k/1024). "
         "Distinct = hash of the spec. "
         "Kept out (audit 2026-09-26, each justified in AUDIT below): harmonic "
         "!= 1 with an explicit freq, db with velocity without amp, arrayed "
@@ -279,6 +342,21 @@ same player restarted on ANOTHER clock object while its wake-up on the old
   clock is pending (it is then woken by both) | the clocks' business       | kept out
 reset() raises TypeError when a Pmono follows in a Pseq / Pn: genuine
   (proposed_fixes/C14-reset-runs-next-pattern-of-sequence.md)            | reported
+round 10:
+Pchain ended by a left operand inside a Pseq / Pn hands the event it had
+  begun to the next pattern: genuine
+  (proposed_fixes/C14-pchain-returns-unfinished-event.md)                | reported
+a control the event gives no value for but whose chain value is not the
+  default because of a scale / octave / root / transposition alone (freq):
+  if it is sent it must be the chain's value; not sending it | 'that the
+  event defines' is ambiguous (this library always sends it)             | tolerated
+derived objects: only the mapping / pattern list of an object the
+  CONSTRUCTOR made is edited in place (Pbind(a.dict), type(a)(*a.patterns));
+  b.patterns.append(x) after copy.copy(a) is the user's own aliasing of a
+  shallow copy; extras define only keys the base does
+  not; no ctranspose over fractional degrees; mono lines are not chained and
+  their streams not consumed outside a player (the end of a consumed mono
+  stream releases a node nobody created)                                 | kept out
 """
 ASSUMPTIONS = [
     "vf/model_events.py is the meaning of 'documented chains' and of the "
@@ -301,6 +379,16 @@ ASSUMPTIONS = [
     "meaning of 'every node is released exactly once'; the NRT scheduler is "
     "cut short (observation only) when its next wake-up lies beyond twice "
     "the model's duration of the case plus 60 s",
+    "derived objects (vf/c14_derive.py): an object made by chain / from the "
+    "parts of a Pchain or Ppar / from the mapping of a Pbind / by a wrapping "
+    "constructor denotes the pattern spec of that construction (Pchain help: "
+    "the operands further left override), a copy denotes what its source "
+    "denotes; all event times lie on the 1/32 grid, play k starts 3k/1024 "
+    "after a grid time, so events of different plays never coincide and are "
+    "attributed by tag and time",
+    "minimal pitch key sets: the non-neutral values of c14_gen.PITCH_INPUTS; "
+    "shifted scales follow the Scale / Tuning help formula of "
+    "vf/model_events.py degree_to_semitones (tuning[degrees[d mod size]])",
     "player control: vf/model_events.py controlled() is the meaning of "
     "pause / resume / reset / mute (PauseStream / EventStreamPlayer help); "
     "all deltas are multiples of 1/64, control calls lie at odd multiples "
@@ -411,6 +499,52 @@ _NEW_MIN9 = {
     'tl_restart_by_reset-play': 100, 'tl_restart_by_play-reset': 60,
     'tl_restart_by_new-player': 50,
 }
+# monitors added in round 10 (minimal pitch key sets, shifted scales, derived
+# pattern objects): quick minimum (about a quarter of an undisturbed quick
+# run), thorough = 6 x
+_PITCH_INPUT_KEYS = ('degree', 'mtranspose', 'gtranspose', 'root', 'octave',
+                     'scale', 'ctranspose', 'harmonic', 'detune', 'note',
+                     'midinote', 'freq')
+_NEW_MIN10 = {
+    'chain_minimal_pitch_key_sets_looked_up': 6000,
+    'chain_minimal_size2': 2000, 'chain_minimal_size3': 500,
+    **{f'chain_pitch_key_alone_{k}': 250 for k in _PITCH_INPUT_KEYS},
+    'chain_shifted_scale_alone': 200,
+    'chain_events_with_shifted_scale_looked_up': 2500,
+    **{f'scale_kind_shifted-{k}': 900 for k in ('degrees', 'tuning', 'both')},
+    'play_minimal_pitch_key_sets_freq_checked': 3500,
+    **{f'play_pitch_key_alone_{k}': 150 for k in _PITCH_INPUT_KEYS},
+    'play_shifted_scale_alone': 120,
+    'tl_pitch_alone_cases_ok': 400,
+    **{f'tl_pitch_key_alone_{k}': 15 for k in _PITCH_INPUT_KEYS},
+    'tl_shifted_scale_alone_events': 40,
+    'tl_pitch_alone_shape_plain': 200, 'tl_pitch_alone_shape_ppar': 80,
+    'tl_pitch_alone_shape_pchain-left': 60,
+    'tl_pitch_alone_shape_pchain-right': 80,
+    'tl_special_chain-in-sequence': 70,
+    'derive_cases_ok': 800,
+    **{f'derive_by_{k}': v for k, v in (
+        ('chain', 160), ('copy', 80), ('copy-chain', 50), ('ctor-parts', 80),
+        ('ctor-parts-edit', 50), ('pbind-dict-edit', 35),
+        ('deepcopy', 80), ('deepcopy-chain', 20), ('pbind-dict-or', 30),
+        ('pbind-dict-star', 45), ('stream-consumed', 65),
+        ('wrap-pchain-chain', 30), ('wrap-pchain-left', 40),
+        ('wrap-pdelta', 55), ('wrap-pdur', 80), ('wrap-pn', 55),
+        ('wrap-ppar', 55), ('wrap-pseq-after', 55),
+        ('wrap-pseq-before', 55))},
+    'derive_base_pchain': 300, 'derive_base_pbind': 200,
+    'derive_base_ppar': 120,
+    'derive_original_played_after_the_derivation': 1100,
+    'derive_original_events_after_the_derivation': 4500,
+    'derive_original_playing_at_the_derivation': 60,
+    'derive_derived_object_played': 1300,
+    'derive_derived_object_events_checked': 7000,
+    'derive_two_derivations': 300, 'derive_from_a_derived_object': 140,
+    'derive_plays_overlapping': 300, 'derive_plays_one_after_the_other': 450,
+    **{f'derive_order_{k}': 180 for k in (
+        'derived-first', 'original-first', 'original-before-the-derivation',
+        'mixed')},
+}
 MIN_COUNTERS = {
     'quick': {'chain_lookups_compared': 10000, 'scale_keys_compared': 3000,
               'play_s_new_checked': 5000, 'play_gate_off_checked': 2000,
@@ -430,7 +564,7 @@ MIN_COUNTERS = {
               'tl_reuse_cut-then-full': 40, 'tl_reuse_players-overlap': 40,
               'tl_reuse_stop-replay': 40, 'tl_reuse_par-twice': 20,
               **{k: v for k, v in _NEW_MIN.items()},
-              **_NEW_MIN8, **_NEW_MIN9},
+              **_NEW_MIN8, **_NEW_MIN9, **_NEW_MIN10},
     'thorough': {'chain_lookups_compared': 300000, 'scale_keys_compared': 100000,
                  'play_s_new_checked': 80000, 'play_gate_off_checked': 30000,
                  'play_no_gate_checked': 30000,
@@ -452,7 +586,11 @@ MIN_COUNTERS = {
                  'tl_reuse_stop-replay': 800, 'tl_reuse_par-twice': 400,
                  **{k: v * 15 for k, v in _NEW_MIN.items()},
                  **{k: v * 15 for k, v in _NEW_MIN8.items()},
-                 **{k: v * 15 for k, v in _NEW_MIN9.items()}},
+                 **{k: v * 15 for k, v in _NEW_MIN9.items()},
+                 # (round 10: 6 x - the thorough timeline shards are bound by
+                 # their seconds, a derived-object history costs about three
+                 # ordinary cases, and the host is shared)
+                 **{k: v * 6 for k, v in _NEW_MIN10.items()}},
 }
 
 
@@ -524,6 +662,11 @@ def run_shard(spec, acc):
      'control': run_control}[kind](spec, acc)
 
 
+def _ignored_pitch_key(ev, attr, got):
+    from vf import c14_run as run
+    return run.ignored_pitch_key(ev, attr, got)
+
+
 def _chain_lookups(acc, i, e, ev, res, prev=None, ctx=None):
     """Look up every key the statement decides for the explicit key set `ev`
     on the real event `e` and compare with the model `res`.  prev: models of
@@ -567,6 +710,10 @@ def _chain_lookups(acc, i, e, ev, res, prev=None, ctx=None):
             acc.violation(k, dict(ctx, case=i, event=ev, key=key, got=g,
                                   expected=exp))
             return False
+        elif pitch and _ignored_pitch_key(ev, key, g):
+            # (round 10: an event with one to three pitch input keys, one of
+            # which the value does not depend on)
+            k = _ignored_pitch_key(ev, key, g)
         elif pitch:
             if run._pitch_class(res, ev):
                 k = run.pitch_key('key-chain-differs', key, res, ev)
@@ -633,7 +780,12 @@ def run_chain(spec, acc):
     for i in iter_cases(spec):
         rng = case_rng(spec['seed'], 'C14', 'chain', i)
         ev = {}
-        ev.update(gen.pitch_keys(rng))
+        # round 10: a quarter of the events give a MINIMAL set of pitch keys -
+        # every input key of the chain alone, in pairs and triples
+        minimal = rng.random() < 0.25
+        ev.update(gen.minimal_pitch_keys(rng) if minimal
+                  else gen.pitch_keys(rng))
+        given = sorted(k for k in ev if k in gen.PITCH_INPUTS)
         ev.update(gen.amp_keys(rng))
         offgrid = rng.random() < 0.5
         ev.update(gen.dur_keys(rng, offgrid))
@@ -663,8 +815,23 @@ def run_chain(spec, acc):
             acc.violation(f'C14/event-construction-raises/{exc_key(x)}',
                           {'case': i, 'event': ev, 'tb': short_tb(x)})
             continue
-        if not _chain_lookups(acc, i, e, ev, res):
+        if not _chain_lookups(acc, i, e, ev, res,
+                              ctx={'minimal': True} if minimal else None):
             continue
+        if minimal and not res.rest:
+            acc.count('chain_minimal_pitch_key_sets_looked_up')
+            acc.count(f'chain_minimal_size{len(given)}')
+            if len(given) == 1:
+                acc.count(f'chain_pitch_key_alone_{given[0]}')
+            else:
+                for k_ in given:
+                    acc.count(f'chain_pitch_key_in_small_set_{k_}')
+            if scale_kind.startswith('shifted'):
+                acc.count('chain_minimal_with_shifted_scale')
+                if given == ['scale']:
+                    acc.count('chain_shifted_scale_alone')
+        if scale_kind.startswith('shifted') and not res.rest:
+            acc.count('chain_events_with_shifted_scale_looked_up')
         if not acc.samples and pitch_n >= 3:
             acc.sample({'case': i, 'event': ev, 'model': res.as_dict()})
         if not ops:
@@ -867,8 +1034,29 @@ def run_play(spec, acc):
                                      'program': prog})
                     break
         for k, detail in bad:
+            # round 10: the freq of an event with a minimal set of pitch keys
+            # - the input key the value does not depend on
+            if detail.get('name') == 'freq' and isinstance(
+                    detail.get('event'), dict) and any(
+                    st.get('minimal') and st['event'].get('tag')
+                    == detail['event'].get('tag') for st in prog['steps']):
+                k = _ignored_pitch_key(detail['event'], 'detuned',
+                                       detail.get('got_list')) or k
             acc.violation(k if k.startswith('C14/') else f'C14/play/{k}',
                           dict(detail, case=i, program=prog))
+        if not bad:
+            for st in prog['steps']:
+                if st.get('minimal') is None:
+                    continue
+                given = st['minimal']
+                acc.count('play_minimal_pitch_key_sets_freq_checked')
+                if len(given) == 1:
+                    acc.count(f'play_pitch_key_alone_{given[0]}')
+                sk = (st['event'].get('scale') or {}).get('kind', '')
+                if sk.startswith('shifted'):
+                    acc.count('play_minimal_with_shifted_scale')
+                    if given == ['scale']:
+                        acc.count('play_shifted_scale_alone')
         if not acc.samples and len(prog['steps']) <= 2 and not bad:
             acc.sample({'case': i, 'program': prog,
                         'score': [[t, m.plain()] for t, m in cap.raw]})
@@ -1572,6 +1760,10 @@ def run_timeline(spec, acc):
     for i in iter_cases(spec):
         rng = case_rng(spec['seed'], 'C14', 'timeline', i)
         case = gen.timeline_case(rng, insts, tags)
+        if case.get('form') == 'derive':
+            acc.case(h64(repr(case)), nontrivial=True)
+            _run_derive(acc, i, case, info, groups)
+            continue
         pat = me.expand(case['pattern'], case.get('shared') or {})
         kinds = _flat_kinds(pat)
         tl = me.timeline(pat)
@@ -1660,13 +1852,47 @@ def run_timeline(spec, acc):
                                'differences': sorted({k for k, _ in bad}),
                                'first': bad[0][1]})
                 continue
+        if case.get('special') == 'chain-in-sequence':
+            # round 10: a Pchain inside a sequence that ends by its left
+            # operand: the pattern that follows is a fresh embedding
+            if bad and case['ends_by'] == 'left-operand':
+                acc.violation(
+                    'C14/timeline/pchain-ended-by-a-left-operand-hands-its-'
+                    'unfinished-event-to-the-next-pattern-of-a-sequence',
+                    {'case': i, 'timeline_case': case,
+                     'differences': sorted({k for k, _ in bad})[:8],
+                     'first': bad[0][1]})
+                continue
+            if not bad:
+                acc.count('tl_chain_in_sequence_ok_ended_by_'
+                          + case['ends_by'])
+                acc.count(f"tl_chain_in_sequence_ok_{case['shape']}")
         # differences that already carry their own mechanism key (input
         # classes of the pitch chain) are reported as they are; the rest goes
         # through the diagnoses below
         for k, detail in bad:
             if k.startswith('C14/'):
+                if case.get('special') == 'pitch-alone' and detail.get(
+                        'name') == 'freq' and isinstance(detail.get('event'),
+                                                         dict):
+                    # round 10: the input key the played freq does not
+                    # depend on
+                    k = _ignored_pitch_key(detail['event'], 'detuned',
+                                           detail.get('got_list')) or k
                 acc.violation(k, dict(detail, case=i, timeline_case=case))
         full, bad = bad, [(k, d) for k, d in bad if not k.startswith('C14/')]
+        if case.get('special') == 'pitch-alone' and not full:
+            acc.count('tl_pitch_alone_cases_ok')
+            acc.count(f"tl_pitch_alone_shape_{case['shape']}")
+            if len(case['alone']) == 1:
+                acc.count(f"tl_pitch_key_alone_{case['alone'][0]}")
+            shifted = sum(
+                1 for n_ in ex.notes + ex.sets
+                if (n_['ev'].get('scale') or {}).get('kind', '').startswith(
+                    'shifted'))
+            acc.count('tl_pitch_alone_events_with_shifted_scale', shifted)
+            if case['alone'] == ['scale']:
+                acc.count('tl_shifted_scale_alone_events', shifted)
         # diagnosis: a Pmono whose first events are rests
         if bad and 'pmono-leading-rest' in tl.flags and all(
                 k.startswith(('missing-s_new/mono_on', 'missing-n_set/mono',
@@ -1793,6 +2019,82 @@ def run_timeline(spec, acc):
             acc.sample({'case': i, 'timeline_case': case,
                         'expected_total': ex.total,
                         'score': [[t, m.plain()] for t, m in cap.raw]})
+
+
+def _run_derive(acc, i, case, info, groups):
+    """Round 10: a history on two or three pattern objects, one derived from
+    the other (vf/c14_derive.py); every play is judged against the timeline
+    of what the played object's OWN construction says."""
+    from vf import c14_derive as dv, c14_run as run
+    ex = dv.expect_derive(case, info, groups)
+    cap = dv.run_derive_case(case)
+    raised = cap.raised is not None or bool(cap.task_errors)
+    bad = [] if raised else run.compare(ex, cap, acc, 'derive', False)
+    hows = [o['build'][0] for o in case['objects'][1:]]
+    if raised or bad:
+        what, how, j = dv.culprit(case, info, groups)
+        m_ = case['objects'][j]['model'] if j is not None else None
+        if what in ('derived-object-differs', 'base-pattern') and m_ \
+                and dv.unfinished_chain_event_in_sequence(m_):
+            # diagnosis: the object is a sequence (Pseq / Pn) in which a
+            # Pchain ends by an operand other than its rightmost one: the
+            # event it had begun is handed to the pattern that follows
+            acc.violation(
+                'C14/timeline/pchain-ended-by-a-left-operand-hands-its-'
+                'unfinished-event-to-the-next-pattern-of-a-sequence',
+                {'case': i, 'derive_case': case, 'object': j,
+                 'differences': sorted({k_ for k_, _ in bad})[:8],
+                 'first': bad[0][1] if bad else None,
+                 'tb': short_tb(cap.raised) if cap.raised is not None
+                 else None})
+            return
+        if raised:
+            err = cap.raised or cap.task_errors[0][1]
+            acc.violation(
+                f'C14/derived-pattern-object-raises/{what}/{how}/' + (
+                    exc_key(err) if err is not None else 'logged-error'),
+                {'case': i, 'derive_case': case,
+                 'raised_in': cap.extra.get('raised_in') or 'player',
+                 'tb': short_tb(err) if err is not None else
+                 cap.task_errors[0][0]})
+            return
+        first = sorted(bad, key=lambda kd: (
+            _diff_time(kd[0], kd[1], ex) or float('inf')))[0]
+        k = first[0].split('/', 2)[-1] if first[0].startswith('C14/') \
+            else first[0]
+        acc.violation(
+            f'C14/derived-pattern-object/{what}/{how}/'
+            + _control_diff_class(k),
+            {'case': i, 'derive_case': case,
+             'differences': sorted({k_ for k_, _ in bad})[:8],
+             'first': first[1], 'player_ended_at': cap.elapsed})
+        return
+    acc.count('derive_cases_ok')
+    acc.count(f"derive_order_{case['order']}")
+    acc.count('derive_plays_overlapping' if case['overlap']
+              else 'derive_plays_one_after_the_other')
+    acc.count(f"derive_base_{case['objects'][0]['kind']}")
+    for h in hows:
+        acc.count(f'derive_by_{h}')
+    if len(hows) > 1:
+        acc.count('derive_two_derivations')
+        if case['objects'][2].get('src') != 'a':
+            acc.count('derive_from_a_derived_object')
+    t_d = case['objects'][1]['at']
+    for pl, tl in ex.plays:
+        n_ = sum(1 for _, e in tl.items if not e.rest)
+        if pl['use'] == 'a':
+            if pl['at'] > t_d or t_d == 0.0:
+                acc.count('derive_original_played_after_the_derivation')
+                acc.count('derive_original_events_after_the_derivation', n_)
+            elif pl['at'] + tl.total > t_d:
+                acc.count('derive_original_playing_at_the_derivation')
+        else:
+            acc.count('derive_derived_object_played')
+            acc.count('derive_derived_object_events_checked', n_)
+    if acc.want_sample() and len(ex.notes) <= 10 and len(case['plays']) >= 2:
+        acc.sample({'case': i, 'derive_case': case,
+                    'score': [[t, m.plain()] for t, m in cap.raw]})
 
 
 def _clips(p):
